@@ -45,5 +45,8 @@ TRText(h, l, pc) == Max2(h - l, Max2(IAbs(h - pc), IAbs(l - pc)))
 
 \* Candle + rhs: keeps open, max high, min low, rhs close, summed volume
 VAdd(a, b) == IF IsNaN(a) \/ IsNaN(b) THEN NAN ELSE a + b          \* an absent (NaN) volume makes the sum absent
-CAdd(a, b) == [o |-> a.o, h |-> Max2(a.h, b.h), l |-> Min2(a.l, b.l), c |-> b.c, v |-> VAdd(a.v, b.v)]
+\* f64::max / f64::min ignore a NaN operand (NaN only when both are NaN): an absent high / low is the identity of the aggregation
+FMax(a, b) == IF IsNaN(a) THEN b ELSE IF IsNaN(b) THEN a ELSE Max2(a, b)
+FMin(a, b) == IF IsNaN(a) THEN b ELSE IF IsNaN(b) THEN a ELSE Min2(a, b)
+CAdd(a, b) == [o |-> a.o, h |-> FMax(a.h, b.h), l |-> FMin(a.l, b.l), c |-> b.c, v |-> VAdd(a.v, b.v)]
 =============================================================================
